@@ -188,6 +188,52 @@ def probe_class(ns, spec):
     return out
 
 
+def run_diamond(spec):
+    """a diamond with cooperative constructors: Base <- Plain (no own constructor), Base <- Mixin (cooperative __init__),
+    Joined(Plain, Mixin), Leaf(Joined) - bare twin vs twin with always-true invariants"""
+    def build(decorated):
+        ns = {"icontract": icontract, "TRACE": []}
+        lines = []
+        base = "icontract.DBC" if (spec["dbc"] and decorated) else "object"
+        if decorated:
+            lines.append("@icontract.invariant(lambda self: True)")
+        lines.append("class Base(%s):" % base)
+        lines.append("    def __init__(self, *a, **k):\n        TRACE.append('Base')\n        self.a = 1")
+        lines.append("    def m(self):\n        return self.a")
+        if decorated and spec["redecorate"]:
+            lines.append("@icontract.invariant(lambda self: True)")
+        lines.append("class Plain(Base):")
+        lines.append("    def p(self):\n        return 2")
+        lines.append("class Mixin(Base):")
+        lines.append("    def __init__(self, *a, **k):\n        TRACE.append('Mixin')\n        super().__init__(*a, **k)\n        self.tag = 7")
+        if decorated and spec.get("decorate_joined"):
+            lines.append("@icontract.invariant(lambda self: True)")
+        lines.append("class Joined(Plain, Mixin):")
+        lines.append("    pass")
+        lines.append("class Leaf(Joined):")
+        lines.append("    def extra(self):\n        return 3")
+        exec(compile("\n".join(lines) + "\n", "<c14diamond>", "exec"), ns)
+        out = {}
+        for name in ("Base", "Plain", "Mixin", "Joined", "Leaf"):
+            del ns["TRACE"][:]
+            cls = ns[name]
+            def probe():
+                o = cls(*spec.get("args", []))
+                return [getattr(o, "a", None), getattr(o, "tag", None), type(o).__name__, o.m(), list(ns["TRACE"]),
+                        [c.__name__ for c in type(o).__mro__ if c.__name__ in ('Base', 'Plain', 'Mixin', 'Joined', 'Leaf')]]
+            out[name] = _try(probe)
+        return out
+    try:
+        plain = build(False)
+    except BaseException as e:  # noqa: B902
+        return {"skip": "plain twin cannot be defined: %s" % e}
+    try:
+        dec = build(True)
+    except BaseException as e:  # noqa: B902
+        return {"plain": plain, "decorated": {"define": ["raise", type(e).__name__, str(e)[:100]]}, "same_class": True}
+    return {"plain": plain, "decorated": dec, "same_class": True}
+
+
 def run_class(spec):
     try:
         ns_plain, src_p = build_class(spec, False)
